@@ -401,6 +401,52 @@ impl<'a> VisitMut for Rules<'a> {
     }
 
     fn visit_block_mut(&mut self, b: &mut syn::Block) {
+        if self.ctx.on("R53") {
+            // R53: `M.retain(|_, V| { S; COND });` on a listed map, where S updates `*V` -> position loop: the value is copied out (value_at), S and COND
+            // run on the copy, the entry is written back (set_index) when COND holds and removed in place (shift_remove_index) otherwise
+            // (documented meaning of IndexMap::retain: entries visited in order, order of the kept ones preserved)
+            let mut out: Vec<syn::Stmt> = Vec::with_capacity(b.stmts.len());
+            for st in b.stmts.drain(..) {
+                let mut rep: Option<Vec<syn::Stmt>> = None;
+                if let syn::Stmt::Expr(syn::Expr::MethodCall(rt), Some(_)) = &st {
+                    if rt.method == "retain" && rt.args.len() == 1 && is_r13_map(self.ctx, &rt.receiver) {
+                        if let syn::Expr::Closure(cl) = &rt.args[0] {
+                            if cl.inputs.len() == 2 {
+                                if let (syn::Pat::Ident(vid), syn::Expr::Block(body)) = (&cl.inputs[1], &*cl.body) {
+                                    let n = body.block.stmts.len();
+                                    if n >= 1 {
+                                        if let syn::Stmt::Expr(cond, None) = &body.block.stmts[n - 1] {
+                                            let k = self.ctx.fresh();
+                                            let ii = syn::Ident::new(&format!("vx_i{}", k), proc_macro2::Span::call_site());
+                                            let vv = syn::Ident::new(&format!("vx_v{}", k), proc_macro2::Span::call_site());
+                                            let m = &rt.receiver;
+                                            let cur: syn::Expr = syn::parse_quote!(#vv);
+                                            let mut blk = syn::Block { brace_token: Default::default(), stmts: body.block.stmts[..n - 1].to_vec() };
+                                            let mut dr = DerefReplacer { ident: vid.ident.to_string(), rep: cur.clone(), n: 0 };
+                                            dr.visit_block_mut(&mut blk);
+                                            let mut cond = cond.clone();
+                                            dr.visit_expr_mut(&mut cond);
+                                            let stmts = &blk.stmts;
+                                            rep = Some(vec![
+                                                syn::parse_quote!(let mut #ii: usize = 0;),
+                                                syn::Stmt::Expr(syn::parse_quote!(while #ii < #m.len() {
+                                                    let mut #vv = #m.value_at(#ii);
+                                                    #(#stmts)*
+                                                    if #cond { #m.set_index(#ii, #vv); #ii = #ii + 1; } else { #m.shift_remove_index(#ii); }
+                                                }), None),
+                                            ]);
+                                            self.ctx.used("R53");
+                                        }
+                                    }
+                                }
+                            }
+                        }
+                    }
+                }
+                match rep { Some(v) => out.extend(v), None => out.push(st) }
+            }
+            b.stmts = out;
+        }
         if self.ctx.on("R13") {
             // R13e: `M.entry(K).or_insert(V);` (statement, result unused) on a listed map -> `let k = K; if !M.contains_key(&k) { M.insert(k, V); }`
             // (the documented meaning of Entry::or_insert: the value is inserted only when the key is absent)
@@ -460,6 +506,52 @@ impl<'a> VisitMut for Rules<'a> {
                                                         syn::parse_quote!(let #target = #oc;),
                                                     ]);
                                                     self.ctx.used("R50");
+                                                }
+                                            }
+                                        }
+                                    }
+                                }
+                            }
+                        }
+                    }
+                }
+                if rep.is_none() {
+                    // R50b: `let X = A.iter().map(|p| BODY).collect::<Option<Vec<T>>>();` (no let-else) -> while loop without break that stops at the
+                    // first None; X is Some(payloads) or None
+                    if let syn::Stmt::Local(l) = &st {
+                        if let (syn::Pat::Ident(xid), Some(init)) = (&l.pat, &l.init) {
+                            if init.diverge.is_none() {
+                                if let syn::Expr::MethodCall(col) = &*init.expr {
+                                    let tf = col.turbofish.as_ref().map(|t| norm(&t.args.to_token_stream().to_string())).unwrap_or_default();
+                                    if col.method == "collect" && tf.starts_with("Option<Vec<") {
+                                        if let syn::Expr::MethodCall(map) = &*col.receiver {
+                                            if map.method == "map" && map.args.len() == 1 {
+                                                if let (syn::Expr::Closure(cl), syn::Expr::MethodCall(it)) = (&map.args[0], &*map.receiver) {
+                                                    if it.method == "iter" && it.args.is_empty() && cl.inputs.len() == 1 {
+                                                        let a = &it.receiver;
+                                                        let pat = match &cl.inputs[0] { syn::Pat::Type(pt) => (*pt.pat).clone(), p => p.clone() };
+                                                        let body = &cl.body;
+                                                        let k = self.ctx.fresh();
+                                                        let oc = syn::Ident::new(&format!("vx_oc{}", k), proc_macro2::Span::call_site());
+                                                        let ok = syn::Ident::new(&format!("vx_ok{}", k), proc_macro2::Span::call_site());
+                                                        let nn = syn::Ident::new(&format!("vx_n{}", k), proc_macro2::Span::call_site());
+                                                        let ii = syn::Ident::new(&format!("vx_i{}", k), proc_macro2::Span::call_site());
+                                                        let inner_ty: syn::Type = syn::parse_str(&tf["Option<".len()..tf.len() - 1]).unwrap_or_else(|_| syn::parse_quote!(Vec<_>));
+                                                        let target = &xid.ident;
+                                                        rep = Some(vec![
+                                                            syn::parse_quote!(let mut #oc: #inner_ty = Vec::new();),
+                                                            syn::parse_quote!(let mut #ok = true;),
+                                                            syn::parse_quote!(let #nn = #a.len();),
+                                                            syn::parse_quote!(let mut #ii: usize = 0;),
+                                                            syn::Stmt::Expr(syn::parse_quote!(while #ii < #nn && #ok {
+                                                                let #pat = &#a[#ii];
+                                                                match #body { Some(vx_oc_v) => { #oc.push(vx_oc_v); } None => { #ok = false; } }
+                                                                #ii = #ii + 1;
+                                                            }), None),
+                                                            syn::parse_quote!(let #target = if #ok { Some(#oc) } else { None };),
+                                                        ]);
+                                                        self.ctx.used("R50");
+                                                    }
                                                 }
                                             }
                                         }
@@ -930,6 +1022,27 @@ impl<'a> VisitMut for Rules<'a> {
             }
         }
         // R37: `A.iter().all(|p| BODY)` -> index loop with early exit (std definition of Iterator::all)
+        if self.ctx.on("R13") {
+            // R13f: `IndexMap::from([(K1, V1), (K2, V2), ..])` -> a new map with the pairs inserted in order (the documented meaning of From<[(K, V); N]>)
+            if let syn::Expr::Call(c) = e {
+                let is_from = match &*c.func { syn::Expr::Path(p) => norm(&p.to_token_stream().to_string()) == "IndexMap::from", _ => false };
+                if is_from && c.args.len() == 1 {
+                    if let syn::Expr::Array(arr) = &c.args[0] {
+                        let pairs: Vec<(syn::Expr, syn::Expr)> = arr.elems.iter().filter_map(|el| match el { syn::Expr::Tuple(t) if t.elems.len() == 2 => Some((t.elems[0].clone(), t.elems[1].clone())), _ => None }).collect();
+                        if pairs.len() == arr.elems.len() {
+                            let k = self.ctx.fresh();
+                            let mm = syn::Ident::new(&format!("vx_m{}", k), proc_macro2::Span::call_site());
+                            let ks: Vec<&syn::Expr> = pairs.iter().map(|p| &p.0).collect();
+                            let vs: Vec<&syn::Expr> = pairs.iter().map(|p| &p.1).collect();
+                            *e = syn::parse_quote!({ let mut #mm = SMap::new(); #( #mm.insert(#ks, #vs); )* #mm });
+                            self.ctx.used("R13");
+                            syn::visit_mut::visit_expr_mut(self, e);
+                            return;
+                        }
+                    }
+                }
+            }
+        }
         if self.ctx.on("R52") {
             // R52: `A.iter().all(|p| B)` / `.any(|p| B)` -> while loop WITHOUT break: `while i < n && flag { if !(B) { flag = false; } i += 1; }`
             // (std definition: in order, stops after the first deciding element); the exit condition is then known to the verifier
@@ -1016,6 +1129,33 @@ impl<'a> VisitMut for Rules<'a> {
             if let syn::Expr::MethodCall(fd) = e {
                 if fd.method == "fold" && fd.args.len() == 2 {
                     let which = match &fd.args[1] { syn::Expr::Path(p) => { let t = norm(&p.to_token_stream().to_string()); if t == "f64::min" { Some("min") } else if t == "f64::max" { Some("max") } else { None } }, _ => None };
+                    if let (Some(w), syn::Expr::MethodCall(cl)) = (which, &*fd.receiver) {
+                        // `A.iter().cloned().fold(INIT, f64::min | f64::max)`: the same with the element itself as the folded value
+                        if cl.method == "cloned" && cl.args.is_empty() {
+                            if let syn::Expr::MethodCall(it) = &*cl.receiver {
+                                if it.method == "iter" && it.args.is_empty() {
+                                    let a = (*it.receiver).clone();
+                                    let init = fd.args[0].clone();
+                                    let k = self.ctx.fresh();
+                                    let nn = syn::Ident::new(&format!("vx_n{}", k), proc_macro2::Span::call_site());
+                                    let ii = syn::Ident::new(&format!("vx_i{}", k), proc_macro2::Span::call_site());
+                                    let acc = syn::Ident::new(&format!("vx_acc{}", k), proc_macro2::Span::call_site());
+                                    let m = syn::Ident::new(w, proc_macro2::Span::call_site());
+                                    *e = syn::parse_quote!({
+                                        let mut #acc: f64 = #init;
+                                        let #nn = #a.len();
+                                        for #ii in 0..#nn {
+                                            #acc = #acc.#m(#a[#ii]);
+                                        }
+                                        #acc
+                                    });
+                                    self.ctx.used("R51");
+                                    syn::visit_mut::visit_expr_mut(self, e);
+                                    return;
+                                }
+                            }
+                        }
+                    }
                     if let (Some(w), syn::Expr::MethodCall(map)) = (which, &*fd.receiver) {
                         if map.method == "map" && map.args.len() == 1 {
                             if let (syn::Expr::Closure(cl), syn::Expr::MethodCall(it)) = (&map.args[0], &*map.receiver) {
